@@ -169,6 +169,16 @@ func errorHandled(r *Repo, f *ssa.Function, e ssa.Value, noret map[*ssa.Function
 		if in, ok := ref.(ssa.Instruction); ok && isExitInstr(in, noret) {
 			exited = true
 		}
+		// handed to a helper that exits whenever it is given a non-nil error
+		if call, ok := ref.(ssa.CallInstruction); ok {
+			if g := call.Common().StaticCallee(); g != nil && len(g.Blocks) > 0 {
+				for i, a := range call.Common().Args {
+					if a == e && i < len(g.Params) && exitsOnNonNil(g, g.Params[i], noret) {
+						exited = true
+					}
+				}
+			}
+		}
 	}
 	checks = append(checks, nilChecksOf(e)...)
 	if len(checks) == 0 {
@@ -688,4 +698,25 @@ func openFlags(c *Check, r *Repo) {
 		})
 	}
 	c.Floor("R-open-flags", n, 1)
+}
+
+// exitsOnNonNil: inside g, parameter p is nil-tested and every path from the
+// non-nil edge exits the process before g returns.
+func exitsOnNonNil(g *ssa.Function, p *ssa.Parameter, noret map[*ssa.Function]bool) bool {
+	checks := nilChecksOf(p)
+	if len(checks) == 0 {
+		return false
+	}
+	for _, nc := range checks {
+		if pathToReturn(nc.NonNil, noret, nil) != nil {
+			return false
+		}
+	}
+	// and the first thing done with p is such a test: no path from entry to a return avoids the test while p may be non-nil
+	for _, nc := range checks {
+		if nc.If.Block() == g.Blocks[0] {
+			return true
+		}
+	}
+	return false
 }
